@@ -103,6 +103,10 @@ pub struct MonState {
     pub over_budget: bool,
     /// While set, the fault plan neither counts nor fires (the harness's own readbacks).
     pub faults_paused: bool,
+    /// Growth watcher: when armed, the image as it was just before the first write that
+    /// extends the file is kept (C15: was there free space at that moment?).
+    pub watch_growth: bool,
+    pub growth_snapshot: Option<(u64, Vec<u8>)>,
 }
 
 impl MonState {
@@ -225,6 +229,16 @@ impl Shared {
     pub fn set_perturb(&self, p: Option<Perturb>) {
         self.lock().perturb = p;
     }
+    /// Arms (and clears) the growth watcher.
+    pub fn watch_growth(&self, on: bool) {
+        let mut g = self.lock();
+        g.watch_growth = on;
+        g.growth_snapshot = None;
+    }
+    /// (offset of the extending write, image just before it) of the first growth since arming.
+    pub fn take_growth_snapshot(&self) -> Option<(u64, Vec<u8>)> {
+        self.lock().growth_snapshot.take()
+    }
 }
 
 /// The handle given to `cfb`.  Cloning shares the bytes but not the position.
@@ -249,6 +263,8 @@ impl MonFile {
             seq_limit: 0,
             over_budget: false,
             faults_paused: false,
+            watch_growth: false,
+            growth_snapshot: None,
         })));
         (MonFile { st: st.clone(), pos: 0 }, st)
     }
@@ -345,6 +361,10 @@ impl Write for MonFile {
         if n > 0 {
             let end = pos as usize + n;
             if g.data.len() < end {
+                if g.watch_growth && g.growth_snapshot.is_none() {
+                    let snap = g.data.clone();
+                    g.growth_snapshot = Some((pos, snap));
+                }
                 g.data.resize(end, 0);
             }
             g.data[pos as usize..end].copy_from_slice(&buf[..n]);
